@@ -90,7 +90,7 @@ impl<'a> GraphLexer<'a> {
                     }
                 }
             } else {
-                if !sd.normal.is_empty() && self.partial {
+                if (!sd.normal.is_empty() || sd.eoi.is_some()) && self.partial {
                     self.token_end = self.token_start;
                     return None;
                 }
